@@ -129,6 +129,61 @@ pub fn payload(seed: u64, tag: u64, index: u64, len: usize) -> Vec<u8> {
             bits = bits.rotate_right(5) ^ 0x9E37_79B9;
         }
     }
+    // ROUND-LEVEL structure: all payloads of one (seed, tag) - the shards of one round - share it, so that it survives the
+    // linear transforms (a slot that is zero in every shard stays zero in every intermediate value): the same symbol
+    // lanes zero in every 64-byte block of every shard (SIMD kernels that test lane masks), the same block zero in every
+    // shard, or all shards from some index on zero except a short footer / header (zero-padded messages with a trailer)
+    let mut rk = [0u8; 32];
+    rk[..8].copy_from_slice(&seed.to_le_bytes());
+    rk[8..16].copy_from_slice(&tag.to_le_bytes());
+    rk[24..32].copy_from_slice(&0x40b1d_u64.to_le_bytes());
+    let g = ChaCha8Rng::from_seed(rk).next_u64();
+    if g % 5 == 0 && len >= 2 {
+        let kind = (g >> 8) % 12;
+        let lane_zero = |s: usize| -> bool {
+            match kind {
+                0 => s < 16,
+                1 => s >= 16,
+                2 => s < 8,
+                3 => s >= 24,
+                4 => s % 2 == 0,
+                5 => (s / 4) % 2 == 0,
+                6 => s != ((g >> 16) % 32) as usize,
+                _ => false,
+            }
+        };
+        match kind {
+            0..=6 => {
+                for (j, b) in v.iter_mut().enumerate() {
+                    if lane_zero(j % 32) {
+                        *b = 0;
+                    }
+                }
+            }
+            7 | 8 => {
+                // the same 64-byte block zero in every shard
+                let nb = len.div_ceil(64);
+                let blk = ((g >> 16) as usize) % nb;
+                let end = (blk * 64 + 64).min(len);
+                v[blk * 64..end].fill(0);
+            }
+            _ => {
+                // shards from some index on: zero except a footer (9, 10) or a header (11) of 1..4 bytes
+                let cut = (g >> 16) % 6;
+                if index % 1000 >= cut {
+                    let keep = 1 + ((g >> 24) % 4) as usize;
+                    let keep = keep.min(len);
+                    if kind == 11 {
+                        v[keep..].fill(0);
+                        v[0] |= 1;
+                    } else {
+                        v[..len - keep].fill(0);
+                        v[len - 1] |= 1;
+                    }
+                }
+            }
+        }
+    }
     v
 }
 
